@@ -23,11 +23,12 @@ SKELETONS = [
     ("query-escape", "http://x.fr/a?k=%", "&l"),
     ("userinfo-escape", "http://u%", "@x.fr/"),
     ("fragment-escape", "http://x.fr/#%", ""),
+    ("path-escape-tail", "http://x.fr/docs/%", ""),
     ("ipv6", "http://u@[::1]", "/x"),
     ("ipv6-port", "https://[2001:db8::1]:", "/x?k=v"),
 ]
 BOUNDS = {
-    "quick": "20 URL skeletons (hole in path tail/middle/root, username, password, host tail, port, query key/value, fragment, before the scheme, scheme separator, after the host, whole string, and right after a '%' in path / query value / username / fragment) x every hole string of length 0..2 (3 for the path / query holes after a '%') over all code points x quoted x strip_fragment (all four combinations up to length 1, one combination per skeleton beyond) x default_protocol in {https, http}; plus holes made of 2 escape tokens (+ one free character in the path) with symbolic hex digits (bytes >= 0x80) in path / query value / username / fragment",
+    "quick": "21 URL skeletons (hole in path tail/middle/root, username, password, host tail, port, query key/value, fragment, before the scheme, scheme separator, after the host, whole string, and right after a '%' in path / query value / username / fragment) x every hole string of length 0..2 (3 for the path / query holes after a '%') over all code points x quoted x strip_fragment (all four combinations up to length 1, one combination per skeleton beyond) x default_protocol in {https, http}; plus holes made of 2 escape tokens (+ one free character in the path) with symbolic hex digits (bytes >= 0x80) in path / query value / username / fragment",
     "thorough": "same skeletons, holes of length 0..4 (3 in netloc positions)",
 }
 STUBS = ["UTF-8 codec, urllib.parse.quote, dict table lookups, regex matcher (see C14)", "stdlib urlsplit / SplitResult properties / urlunsplit interpreted from source",
@@ -37,7 +38,7 @@ TRUSTED = ["spec/url.py (reference denotation: cleaning, dot-segment / empty-seg
 ASSUMPTIONS = ["inputs that the standard parser rejects (ValueError) are outside the property", "'' and absent userinfo/fragment are identified; '' and '/' paths are identified; '+' in queries is literal",
                "a '%2E' dot-segment denotes the same as '.'", "IDNA spelling of hosts is not decided (C code)"]
 LONG = ("path-tail", "path-mid", "path-root", "query-key", "query-value", "fragment", "path-escape", "query-escape",
-        "userinfo-escape", "fragment-escape")
+        "userinfo-escape", "fragment-escape", "path-escape-tail")
 
 
 def canon(st, skel, n, quoted, strip_fragment, dp, shape=None):
